@@ -83,7 +83,7 @@ class State:
         s.id = new_id(); s.objs = {}; s.bases = []; s.pc = []; s.model = None; s.frames = []
         s.heap_next = 0x10000000; s.stack_next = 0x7f0000000000; s.steps = 0
         s.inputs = []  # (name, kind, vars)
-        s.notes = []; s.live_heap = 0; s.nundef = 0; s.trace = []; s.seq = []; s.retval = None; s.concr = {}
+        s.notes = []; s.live_heap = 0; s.nundef = 0; s.trace = []; s.seq = []; s.retval = None; s.concr = {}; s.known = {}
 
     def fork(s):
         t = State.__new__(State)
@@ -95,7 +95,7 @@ class State:
             t.frames.append(g)
         t.heap_next = s.heap_next; t.stack_next = s.stack_next; t.steps = s.steps
         t.inputs = list(s.inputs); t.notes = list(s.notes); t.live_heap = s.live_heap; t.nundef = s.nundef
-        t.trace = list(s.trace); t.seq = list(s.seq); t.retval = None; t.concr = dict(s.concr)
+        t.trace = list(s.trace); t.seq = list(s.seq); t.retval = None; t.concr = dict(s.concr); t.known = dict(s.known)
         return t
 
     def add_obj(s, o):
@@ -917,16 +917,24 @@ class Engine:
 
     def branch(s, st, fr, c, tA, tB):
         """c: BV1 term.  Continue on the side the cached model takes; fork the other if feasible."""
+        cid = c.get_id()
+        kn = st.known.get(cid)
+        if kn is not None:
+            # the same condition term was already decided on this path (e.g. a second pass over the same bytes)
+            s.stats['known_hits'] = s.stats.get('known_hits', 0) + 1
+            s.goto(st, fr, tA if kn[1] else tB)
+            return JUMP
         mv = st.model.eval(c, model_completion=True).as_long()
         other = (c == (1 - mv))
         if s.sat(st.pc, other):
             if s.check_undef: s.undef_check(st, c)
-            t = st.fork(); t.pc.append(other); t.model = s.last_model
+            t = st.fork(); t.pc.append(other); t.model = s.last_model; t.known[cid] = (c, 1 - mv)
             s.goto(t, t.frames[-1], tB if mv else tA)
             s.pending.append(t); s.stats['forks'] += 1
-            st.pc.append(c == mv)
+            st.pc.append(c == mv); st.known[cid] = (c, mv)
             s.goto(st, fr, tA if mv else tB)
             return FORK
+        st.known[cid] = (c, mv)
         s.goto(st, fr, tA if mv else tB)
         return JUMP
 
@@ -1066,8 +1074,51 @@ def ev(fr, o):
     return fr.regs[o[1]] if o[0] == R else o[1]
 
 
+def _lowsplit(x, n):
+    """x == Concat(hi, lo) with lo a k-bit constant: returns (lo, k); k == n for a python int, 0 if nothing is known."""
+    if type(x) is int: return x, n
+    try:
+        if x.decl().kind() == z3.Z3_OP_CONCAT:
+            last = x.arg(x.num_args() - 1)
+            if z3.is_bv_value(last): return last.as_long(), last.size()
+    except Exception:
+        pass
+    return 0, 0
+
+
+def _hi(x, n, k):
+    if type(x) is int: return x >> k
+    return z3.Extract(n - 1, k, x)
+
+
+def _lowbits_bin(op, n, a, b):
+    """and/or/xor/add/sub when both operands have concretely known low bits (typical for SIMD bitmasks whose upper lanes come
+    from never-written padding): compute the low part concretely so that carries do not entangle it with the unknown part."""
+    la, ka = _lowsplit(a, n); lb, kb = _lowsplit(b, n)
+    k = min(ka, kb)
+    if k == 0 or k >= n: return None
+    mk = (1 << k) - 1
+    la &= mk; lb &= mk
+    ha = _hi(a, n, k); hb = _hi(b, n, k); w = n - k
+    HA = bv(ha, w); HB = bv(hb, w)
+    if op == 'and': lo = la & lb; hi = HA & HB
+    elif op == 'or': lo = la | lb; hi = HA | HB
+    elif op == 'xor': lo = la ^ lb; hi = HA ^ HB
+    elif op == 'add':
+        t = la + lb; lo = t & mk; hi = HA + HB + (t >> k) if (t >> k) else HA + HB
+    elif op == 'sub':
+        t = la - lb; lo = t & mk; hi = HA - HB - 1 if t < 0 else HA - HB
+    else: return None
+    hi = z3.simplify(hi)
+    if z3.is_bv_value(hi): return (hi.as_long() << k) | lo
+    return z3.simplify(z3.Concat(hi, z3.BitVecVal(lo, k)))
+
+
 def sbin(op, n, a, b):
     if type(a) is int and type(b) is int: return cbin(op, n, a, b)
+    if op in ('and', 'or', 'xor', 'add', 'sub') and n >= 16:
+        r = _lowbits_bin(op, n, a, b)
+        if r is not None: return r
     # cheap identities that keep terms concrete
     if op == 'and':
         if a == 0 or b == 0: return 0
